@@ -5,7 +5,7 @@
    parameters the relying party holds (its nonce, client id, the access token and code it received).  SHA-2 is a
    parameter `sha`; signature verification itself is the subject of C01. *)
 From Coq Require Import List NArith ZArith Bool Ascii String.
-From Authlib Require Import Base.Bytes Base.Base64 Base.PyVal Model.Claims Model.IDToken Proofs.IDTokenP Proofs.IDTokenN.
+From Authlib Require Import Base.Bytes Base.Base64 Base.PyVal Model.Claims Model.IDToken Proofs.Base64P Proofs.IDTokenP Proofs.IDTokenN.
 Import ListNotations.
 Open Scope string_scope.
 Open Scope list_scope.
@@ -79,6 +79,18 @@ Theorem half_hash_is_left_half :
   forall s alg, known_hash (hash_bits alg) = true ->
   hh s alg = Some (b64url_encode (str_take (Nat.div (String.length (sha (hash_bits alg) s)) 2) (sha (hash_bits alg) s))).
 Proof. intros. apply half_hash_def. assumption. Qed.
+
+(* the encoding loses nothing: two values get the same at_hash / c_hash only if the left halves of their digests are the same
+   octets -- so the hypotheses "hh code' alg <> hh code alg" above hold whenever the digests' left halves differ, i.e. the
+   refusal theorems rest on the hash function alone, not on the encoding *)
+Theorem equal_half_hashes_mean_equal_digest_halves :
+  forall s s' alg, known_hash (hash_bits alg) = true -> hh s alg = hh s' alg ->
+  str_take (Nat.div (String.length (sha (hash_bits alg) s)) 2) (sha (hash_bits alg) s) =
+  str_take (Nat.div (String.length (sha (hash_bits alg) s')) 2) (sha (hash_bits alg) s').
+Proof.
+  intros s s' alg K H. rewrite !half_hash_def in H by assumption. injection H as H.
+  apply (f_equal urlsafe_b64decode) in H. rewrite !urlsafe_b64decode_encode in H. injection H as H. exact H.
+Qed.
 End C13.
 
 (* nonce requirement and replay at the authorization endpoint, over every history of requests *)
@@ -100,6 +112,7 @@ Print Assumptions other_client_is_refused.
 Print Assumptions other_access_token_is_refused.
 Print Assumptions other_code_is_refused.
 Print Assumptions half_hash_is_left_half.
+Print Assumptions equal_half_hashes_mean_equal_digest_halves.
 Print Assumptions missing_nonce_is_refused.
 Print Assumptions replayed_nonce_is_refused.
 
